@@ -32,7 +32,7 @@ type Case struct {
 }
 
 func gen(t *rapid.T) Case {
-	h := lib.GenHistory(t, lib.RepoGenOpts{Cutoff: true, Kinds: []string{"cat", "strip", "strip", "count", "count", "multi", "dirn", "cat"}}, 2, 6)
+	h := lib.GenHistory(t, lib.RepoGenOpts{Cutoff: true, Tools: true, Kinds: []string{"cat", "strip", "strip", "count", "count", "multi", "dirn", "cat"}}, 2, 6)
 	c := Case{H: h}
 	for i := range h.States {
 		c.Noop = append(c.Noop, i == len(h.States)-1 || rapid.IntRange(0, 2).Draw(t, "noop") == 0)
